@@ -3,7 +3,7 @@
    regular-expression engine does (backtracking from position 0, ".*" greedy, first success
    wins) and [is_match] what Regex::is_match reports (the match found must span the whole string);
    [fn] is fnmatch on that sequence: does SOME way of matching the whole string exist. *)
-Require Import GlobEngine GlobBT GlobNFA Glob GlobSpec GlobParse PathModel Paths PathsProofs.
+Require Import GlobEngine GlobBT GlobNFA Glob GlobSpec GlobParse PathModel Paths PathsProofs Tables TablesOk.
 From Coq Require Import List Arith Bool.
 Import ListNotations.
 
@@ -121,3 +121,31 @@ Example C12_name_subject_witness :   (* "./" -> "." ; "d/.." -> ".." ; "//" -> "
   Paths.name_subject [46; 47] = [46] /\ Paths.name_subject [100; 47; 46; 46] = [46; 46] /\ Paths.name_subject [47; 47] = [47] /\
   Paths.name_subject [46; 47; 100; 47; 46; 47] = [46] /\ Paths.name_subject [97; 47; 98; 99] = [98; 99].
 Proof. vm_compute. repeat split. Qed.
+
+(* The names the translator accepts between "[:" and ":]" (regenerated from glob.rs on every run) are exactly the twelve POSIX class
+   names of the model - and the -regex validator (regex.rs) accepts the same twelve. *)
+Theorem C12_class_table : forall name,
+  In name Tables.glob_class_names <-> exists k, class_of name class_names = Some k /\ k < 12.
+Proof.
+  intros name. rewrite TablesOk.glob_classes_ok. split.
+  - intros H. cbn [In] in H.
+    repeat (destruct H as [<-|H]; [eexists; split; [vm_compute; reflexivity|repeat constructor]|]). contradiction.
+  - intros (k & Hc & Hk).
+    assert (Heq : forall a b, list_eqb a b = true -> a = b).
+    { induction a as [|x a IH]; destruct b as [|y b]; cbn; try discriminate; [reflexivity|].
+      intros H. apply Bool.andb_true_iff in H as [H1 H2]. apply Nat.eqb_eq in H1. subst. f_equal. now apply IH. }
+    unfold class_names in Hc. cbn [class_of] in Hc.
+    repeat match type of Hc with
+           | (if list_eqb name ?n then _ else _) = _ =>
+               let E := fresh "E" in
+               destruct (list_eqb name n) eqn:E;
+               [apply Heq in E; subst name; injection Hc as <-;
+                first [solve [cbn [In]; repeat ((left; reflexivity) || right)]
+                      |exfalso; apply Nat.ltb_lt in Hk; vm_compute in Hk; discriminate]|clear E]
+           end.
+    discriminate.
+Qed.
+Print Assumptions C12_class_table.
+
+Theorem C12_regex_classes_the_same : Tables.regex_class_names = Tables.glob_class_names.
+Proof. exact TablesOk.regex_classes_ok. Qed.
